@@ -17,6 +17,7 @@ import LWV.Model.Mgmt
 import LWV.Spec.Mgmt
 import LWV.Model.Eapol
 import LWV.Spec.Eapol
+import LWV.Model.Heap
 /-
 Line-protocol driver: runs the executable Model (and Spec) on the same operation lines the C
 harness runs.  Compiled as `lwdriver` (nothing below imports Mathlib).
@@ -113,7 +114,7 @@ def toEditOp : Model.TagOp → Spec.EditOp
   | .check n => .check n
 
 /-- `tgchk ops @ ret/len/hex | ...`: evaluate the Spec relation on the implementation's states -/
-def tagCheck (ops : List Model.TagOp) (states : List String) : String := Id.run do
+def tagCheck (ops : List Model.TagOp) (states : List String) (faulty : Bool := false) : String := Id.run do
   let mut before : Bytes := []
   let mut i := 0
   for (op, st) in ops.zip states do
@@ -122,7 +123,7 @@ def tagCheck (ops : List Model.TagOp) (states : List String) : String := Id.run 
       match r.toInt?, l.toNat?, ofHex h with
       | some r, some l, some after =>
         if l != after.length then return s!"fails {i} recorded length differs from the byte count"
-        match Spec.editHolds before (toEditOp op) r after with
+        match (if faulty then Spec.editHoldsF before (toEditOp op) r after else Spec.editHolds before (toEditOp op) r after) with
         | some why => return s!"fails {i} {why}"
         | none => before := after
       | _, _, _ => return s!"fails {i} unparsable state"
@@ -452,6 +453,141 @@ def stepEap (rt : Bool) (bs : Bytes) : String :=
       else s!"cls=ok hs=-22 msg={msg} kdl=-22 data=err-22"
   m ++ " ;; spec=" ++ sp
 
+/-! allocation-aware runs (`alloc` lines) -/
+open LWV.Heap in
+def sigmaOf (k : Option Nat) (fromOn : Bool) : Nat → Bool :=
+  match k with
+  | none => fun _ => false
+  | some k => fun i => i == k || (fromOn && i > k)
+
+open LWV.Heap in
+def ledgerLine (h : H) : String :=
+  let tr := String.join (h.trace.map fun e => e ++ " ")
+  s!" || live={h.live.length} bad={h.bad} reqs={h.reqs} faults={h.faults} trace={tr}"
+
+open LWV.Heap in
+def runTagOpsH (σ : Nat → Bool) (ops : List Model.TagOp) : M String := do
+  let mut th : TagsH := {}
+  let mut outs : List String := []
+  for op in ops do
+    let (r, th') ← stepTagH σ th op
+    th := th'
+    outs := outs ++ [showTagState r th'.t]
+  -- libwifi_free_beacon
+  free th.ptr
+  return if outs.isEmpty then "nop" else " | ".intercalate outs
+
+open LWV.Heap in
+def runGenH (σ : Nat → Bool) (k : Model.GKind) (a : Model.GArgs) (edits : List Model.GEdit) (bufLen : Option Nat) : M String := do
+  let (r, g0) ← createH σ k a
+  let mut g := g0
+  let mut er : Int := 0
+  for e in edits do
+    if editApplies k e g.o then
+      let (r', g') ← editH σ g e
+      g := g'
+      er := r'
+    else er := -7777
+  let o := g.o
+  let len := o.length
+  let buf := List.replicate (bufLen.getD len) (0xA5 : UInt8)
+  let line := match Model.dumpInto o buf with
+    | .ok (d, after) =>
+      if d < 0 then s!"ret={r} edit={er} len={len} dump=err touched={if after == buf then 0 else 1}"
+      else
+        let n := d.toNat
+        s!"ret={r} edit={er} len={len} dump={n}/{toHex (after.take n)} touched={if after.drop n == buf.drop n then 0 else 1}"
+    | .err c => s!"err {c}"
+    | .fault f => s!"FAULT {repr f}"
+  freeH g
+  return line
+
+open LWV.Heap in
+def stepClsH (σ : Nat → Bool) (rt : Bool) (bs : Bytes) : M String := do
+  let (r, fh) ← classifyH σ rt bs
+  match fh.f with
+  | some f =>
+    -- libwifi_parse_data: type check, then malloc(body_len)
+    let dataStr ← (if Model.frameType f == 2 then do
+        match ← malloc σ (f.len - f.headerLen) with
+        | none => pure "data=err"
+        | some p => do free (some p); pure (showData f)
+      else pure "data=err")
+    freeFrameH fh
+    let rts := match f.radiotap with
+      | some i => s!"{i.length}/{i.flags}"
+      | none => "-"
+    return s!"ok flags={f.flags} len={f.len} hl={f.headerLen} fc={toHex f.fc} hdr={toHex f.header} body={toHex f.body} rt={rts} {dataStr}"
+  | none =>
+    freeFrameH fh
+    return s!"err {r}"
+
+open LWV.Heap in
+def stepMpH (σ : Nat → Bool) (rt : Bool) (bs : Bytes) : M String := do
+  let (_, fh) ← classifyH σ rt bs
+  match fh.f with
+  | some f =>
+    let mut out := "cls=ok"
+    for (n, k) in mkinds do
+      let r ← parseReleaseH σ k f
+      out := out ++ s!" # {n}=" ++ (match r with
+        | .ok p => showParsed p
+        | .err c => s!"err{c}"
+        | .fault x => s!"FAULT {repr x}")
+    freeFrameH fh
+    return out
+  | none =>
+    freeFrameH fh
+    return "cls=err"
+
+open LWV.Heap in
+def stepEapH (σ : Nat → Bool) (rt : Bool) (bs : Bytes) : M String := do
+  let (_, fh) ← classifyH σ rt bs
+  match fh.f with
+  | some f =>
+    let hs := match Model.checkHandshake f with | .ok r => toString r | _ => "FAULT"
+    let msg := match Model.checkMessage f with | .ok r => toString r | _ => "FAULT"
+    let kdl := match Model.keyDataLength f with | .ok r => toString r | _ => "FAULT"
+    let data ← (match Model.getWpaData f with
+      | .ok d => do
+        if d.keyDataLength > 0 then
+          match ← malloc σ d.keyDataLength with
+          | none => pure "err-12"
+          | some p => do
+            free (some p)
+            pure (showWpaData d.version d.type d.length d.descriptor d.information d.keyLength d.replay d.nonce d.iv d.rsc d.id d.mic d.keyData)
+        else pure (showWpaData d.version d.type d.length d.descriptor d.information d.keyLength d.replay d.nonce d.iv d.rsc d.id d.mic d.keyData)
+      | .err c => pure s!"err{c}"
+      | .fault x => pure s!"FAULT {repr x}")
+    freeFrameH fh
+    return s!"cls=ok hs={hs} msg={msg} kdl={kdl} data={data}"
+  | none =>
+    freeFrameH fh
+    return "cls=err"
+
+open LWV.Heap in
+def stepAlloc (k : Option Nat) (fromOn : Bool) (inner : List String) : String :=
+  let σ := sigmaOf k fromOn
+  let run (m : M String) : String := let (s, h) := m.run {}; s ++ ledgerLine h
+  match inner with
+  | ["tg", ops] =>
+    match (ops.splitOn ",").mapM parseTagOp with
+    | some ops => run (runTagOpsH σ ops)
+    | none => "bad-op"
+  | "gen" :: kind :: rest =>
+    match gkindOf kind with
+    | some (mk, _) =>
+      let kv := kvOf rest
+      let ops := (kv.lookup "ops").getD "-"
+      match (if ops == "-" then some [] else (ops.splitOn ",").mapM parseGEdit) with
+      | some edits => run (runGenH σ mk (gargsOf kv) edits ((kv.lookup "buf").bind parseNat))
+      | none => "bad-op"
+    | none => "bad-op"
+  | ["cls", rt, h] => match ofHex h with | some bs => run (stepClsH σ (rt == "1") bs) | none => "bad-op"
+  | ["mp", rt, h] => match ofHex h with | some bs => run (stepMpH σ (rt == "1") bs) | none => "bad-op"
+  | ["eap", rt, h] => match ofHex h with | some bs => run (stepEapH σ (rt == "1") bs) | none => "bad-op"
+  | _ => "bad-op"
+
 def step (line : String) : String :=
   match line.trimAscii.toString.splitOn " " with
   | ["tagname", v] =>
@@ -487,6 +623,10 @@ def step (line : String) : String :=
   | ["tg", ops] =>
     match (ops.splitOn ",").mapM parseTagOp with
     | some ops => runTagOps ops
+    | none => "bad-op"
+  | "tgchkf" :: ops :: "@" :: rest =>
+    match (ops.splitOn ",").mapM parseTagOp with
+    | some ops => tagCheck ops ((" ".intercalate rest).splitOn " | ") true
     | none => "bad-op"
   | "tgchk" :: ops :: "@" :: rest =>
     match (ops.splitOn ",").mapM parseTagOp with
@@ -577,6 +717,9 @@ def step (line : String) : String :=
     match ofHex h with
     | some bs => stepEap (rt == "1") bs
     | none => "bad-op"
+  | "alloc" :: k :: fromOn :: _fill :: inner =>
+    stepAlloc (if k == "none" then none else k.toNat?) (fromOn == "1") inner
+  | ["zerofree"] => "ok ;; spec=ok"
   | ["spec-ieee", kind] =>
     match specKinds.lookup kind with
     | some t => dumpTable t
